@@ -145,8 +145,10 @@ def gen_input(rng, mode: str, flavour: str = "mixed") -> dict:
 def _spoil(rng, cells) -> None:
     """an invalid descriptor list (the constructor must reject it the same way in model and implementation)."""
     c = rng.choice(cells)
-    k = rng.randrange(8)
-    if k == 0:
+    k = rng.randrange(9)
+    if k == 8 and c["kind"] == "V":
+        c["region"] = "9bad"                      # not a valid identifier
+    elif k == 0:
         d = dict(c)
         d["v"] = [c["v"][0] + c["v"][2] / 4, c["v"][1], c["v"][2], c["v"][3]]
         d["alloc"] = [list(p) for p in c["alloc"]]
